@@ -372,13 +372,19 @@ package emitter
 //@ pred ChunkObjsAlloc(c *chunk) = (c.branchBehavior == nil || allocated(c.branchBehavior))
 //@   && (typeis(c.branchBehavior, leafExpressionBranch) ==> allocated(as(c.branchBehavior, leafExpressionBranch).truthyDest))
 
+// what the work list needs to know about a chunk: ids and destinations in range, statements well-formed, branch well-formed
+//@ pred PendingOK(c *chunk, cc int) = c != nil && 0 <= c.id && c.id <= cc && IdOK(c.returnID, cc + 1) && StmtsWF(c.statements) && ChunkObjsAlloc(c)
+//@   && (c.branchBehavior != nil ==> (BrWF(c.branchBehavior) && BranchDestsOK(c.branchBehavior, cc + 1)))
+
 //@ func splitBooleanExpressionChunks
 //@   requires BoolWF(expression) && chunkCounter != nil && *chunkCounter >= 0
+//@   requires 0 <= successChunkID && successChunkID <= *chunkCounter && -1 <= failureChunkID && failureChunkID <= *chunkCounter
 //@   modifies *chunkCounter
 //@   use BoolWFDef(expression)
 //@   use CondDef(expression, K(successChunkID), K(failureChunkID))
 //@   ensures [C01,C02:cond-fresh] Appended(result0, old(remainingChunks), old(*chunkCounter), *chunkCounter) && *chunkCounter > old(*chunkCounter)
 //@   ensures [C01,C02:cond-fresh2] forall j int :: {result0[j]} (len(old(remainingChunks)) <= j && j < len(result0)) ==> (fresh(result0[j]) && ChunkObjsAlloc(result0[j]))
+//@   ensures [C04:cond-pending] forall j int :: {result0[j]} (len(old(remainingChunks)) <= j && j < len(result0)) ==> (PendingOK(result0[j], *chunkCounter) && len(result0[j].statements) == 0)
 //@   ensures [C01,C02:cond-link] result1 != nil && old(*chunkCounter) < result1.id && result1.id <= *chunkCounter
 //@   ensures [C01,C02:cond-first] result2 == (firstID == -1 ? result1.id : firstID)
 //@   ensures [C01,C02,C11:cond-sem] (forall j int :: {result0[j]} (len(old(remainingChunks)) <= j && j < len(result0)) ==> EmptyChunkEq(result0[j]))
@@ -397,7 +403,10 @@ package emitter
 //@ func createWhileStatementChunks
 //@   requires stmt != nil && stmt.Consequence != nil && stmt.Consequence.Body != nil && CondExprOK(stmt.Consequence.Expression)
 //@   requires curChunk != nil && chunkCounter != nil && *chunkCounter >= 0 && 0 <= i && i < len(curChunk.statements)
+//@   requires StmtsWF(stmt.Consequence.Body.Statements) && StmtsWF(curChunk.statements) && IdOK(curChunk.returnID, *chunkCounter + 1)
 //@   modifies *chunkCounter, curChunk.returnID
+//@   ensures [C04:while-pending] forall j int :: {result0[j]} (len(old(remainingChunks)) <= j && j < len(result0)) ==> PendingOK(result0[j], *chunkCounter)
+//@   ensures [C04:while-ids] IdOK(result2, *chunkCounter + 1) && 0 <= result1.destChunkID && result1.destChunkID <= *chunkCounter && IdOK(curChunk.returnID, *chunkCounter + 1)
 //@   ensures [C01:while-fresh] Appended(result0, old(remainingChunks), old(*chunkCounter), *chunkCounter) && len(result0) >= len(old(remainingChunks)) + 2
 //@   ensures [C01:while-fresh2] forall j int :: {result0[j]} (len(old(remainingChunks)) <= j && j < len(result0)) ==> (fresh(result0[j]) && ChunkObjsAlloc(result0[j]))
 //@   ensures [C01:while-ret] result2 == (i == len(curChunk.statements) - 1 ? old(curChunk.returnID) : result0[len(old(remainingChunks))].id)
@@ -414,7 +423,10 @@ package emitter
 //@ func createDoWhileStatementChunks
 //@   requires stmt != nil && stmt.Consequence != nil && stmt.Consequence.Body != nil && BoolWF(stmt.Consequence.Expression)
 //@   requires curChunk != nil && chunkCounter != nil && *chunkCounter >= 0 && 0 <= i && i < len(curChunk.statements)
+//@   requires StmtsWF(stmt.Consequence.Body.Statements) && StmtsWF(curChunk.statements) && IdOK(curChunk.returnID, *chunkCounter + 1)
 //@   modifies *chunkCounter, curChunk.returnID
+//@   ensures [C04:dowhile-pending] forall j int :: {result0[j]} (len(old(remainingChunks)) <= j && j < len(result0)) ==> PendingOK(result0[j], *chunkCounter)
+//@   ensures [C04:dowhile-ids] IdOK(result2, *chunkCounter + 1) && 0 <= result1.destChunkID && result1.destChunkID <= *chunkCounter && IdOK(curChunk.returnID, *chunkCounter + 1)
 //@   ensures [C01:dowhile-fresh] Appended(result0, old(remainingChunks), old(*chunkCounter), *chunkCounter) && len(result0) >= len(old(remainingChunks)) + 2
 //@   ensures [C01:dowhile-fresh2] forall j int :: {result0[j]} (len(old(remainingChunks)) <= j && j < len(result0)) ==> (fresh(result0[j]) && ChunkObjsAlloc(result0[j]))
 //@   ensures [C01:dowhile-ret] result2 == (i == len(curChunk.statements) - 1 ? old(curChunk.returnID) : result0[len(old(remainingChunks))].id)
@@ -445,16 +457,19 @@ package emitter
 
 //@ func createIfStatementChunks
 //@   requires IfStmtOK(stmt) && curChunk != nil && chunkCounter != nil && *chunkCounter >= 0 && 0 <= i && i < len(curChunk.statements)
+//@   requires StmtWF(stmt) && StmtsWF(curChunk.statements) && IdOK(curChunk.returnID, *chunkCounter + 1)
 //@   modifies *chunkCounter, curChunk.returnID
+//@   ensures [C04:if-pending] forall j int :: {result0[j]} (len(old(remainingChunks)) <= j && j < len(result0)) ==> PendingOK(result0[j], *chunkCounter)
+//@   ensures [C04:if-ids] 0 <= result1.destChunkID && result1.destChunkID <= *chunkCounter && IdOK(curChunk.returnID, *chunkCounter + 1)
 //@   useret ElifSemDef(stmt, 0, result0[len(old(remainingChunks)) + (i == len(curChunk.statements) - 1 ? 0 : 1)].id + 1,
 //@                  (stmt.ElseConsequence != nil ? BehOf(result0[len(old(remainingChunks)) + (i == len(curChunk.statements) - 1 ? 0 : 1)].id + 1 + len(stmt.ElifConsequences)) : K(curChunk.returnID)))
 //@   ensures [C01:if-fresh] Appended(result0, old(remainingChunks), old(*chunkCounter), *chunkCounter)
 //@   ensures [C01:if-fresh2] forall j int :: {result0[j]} (len(old(remainingChunks)) <= j && j < len(result0)) ==> (fresh(result0[j]) && ChunkObjsAlloc(result0[j]))
 //@   ensures [C01:if-post] i < len(curChunk.statements) - 1 ==> (PostChunkOK(result0[len(old(remainingChunks))], curChunk, i, old(curChunk.returnID)) && curChunk.returnID == result0[len(old(remainingChunks))].id)
 //@   ensures [C01:if-last] i == len(curChunk.statements) - 1 ==> curChunk.returnID == old(curChunk.returnID)
-//@   ensures [C01:if-bodies] IfBodies(result0, stmt, len(old(remainingChunks)) + (i == len(curChunk.statements) - 1 ? 0 : 1), curChunk.returnID)
+//@   ensures [C01:if-bodies|~if-pending-inv,~cond-pending] IfBodies(result0, stmt, len(old(remainingChunks)) + (i == len(curChunk.statements) - 1 ? 0 : 1), curChunk.returnID)
 //@   ensures [C01:if-entry] result1 != nil && fresh(result1)
-//@   ensures [C01,C02:if-sem] (forall j int :: {result0[j]} (len(old(remainingChunks)) + (i == len(curChunk.statements) - 1 ? 0 : 1) + 1 + len(stmt.ElifConsequences) + (stmt.ElseConsequence != nil ? 1 : 0) <= j && j < len(result0)) ==> EmptyChunkEq(result0[j]))
+//@   ensures [C01,C02:if-sem|~if-pending-inv,~cond-pending] (forall j int :: {result0[j]} (len(old(remainingChunks)) + (i == len(curChunk.statements) - 1 ? 0 : 1) + 1 + len(stmt.ElifConsequences) + (stmt.ElseConsequence != nil ? 1 : 0) <= j && j < len(result0)) ==> EmptyChunkEq(result0[j]))
 //@        ==> K(result1.destChunkID) == Cond(stmt.Consequence.Expression, BehOf(result0[len(old(remainingChunks)) + (i == len(curChunk.statements) - 1 ? 0 : 1)].id),
 //@               ElifSem(stmt, 0, result0[len(old(remainingChunks)) + (i == len(curChunk.statements) - 1 ? 0 : 1)].id + 1,
 //@                  (stmt.ElseConsequence != nil ? BehOf(result0[len(old(remainingChunks)) + (i == len(curChunk.statements) - 1 ? 0 : 1)].id + 1 + len(stmt.ElifConsequences)) : K(curChunk.returnID))))
@@ -462,6 +477,8 @@ package emitter
 //@     invariant [C01:if-inv] Appended(remainingChunks, old(remainingChunks), old(*chunkCounter), *chunkCounter) && *chunkCounter >= 0 && $i <= len(stmt.ElifConsequences)
 //@     invariant [C01:if-inv] len(remainingChunks) == len(old(remainingChunks)) + (i == len(curChunk.statements) - 1 ? 0 : 1) + 1 + $i && len(elifChunks) == $i
 //@     invariant [C01:if-inv] forall j int :: {remainingChunks[j]} (len(old(remainingChunks)) <= j && j < len(remainingChunks)) ==> (fresh(remainingChunks[j]) && ChunkObjsAlloc(remainingChunks[j]))
+//@     invariant [C04:if-pending-inv] forall j int :: {remainingChunks[j]} (len(old(remainingChunks)) <= j && j < len(remainingChunks)) ==> PendingOK(remainingChunks[j], *chunkCounter)
+//@     invariant [C01:if-inv] IdOK(returnID, *chunkCounter + 1) && IdOK(curChunk.returnID, *chunkCounter + 1)
 //@     invariant [C01:if-inv] consequenceChunk == remainingChunks[len(old(remainingChunks)) + (i == len(curChunk.statements) - 1 ? 0 : 1)] && consequenceChunk.id == *chunkCounter - $i
 //@     invariant [C01:if-inv] consequenceChunk.statements == stmt.Consequence.Body.Statements && consequenceChunk.returnID == returnID && consequenceChunk.branchBehavior == nil
 //@     invariant [C01:if-inv] returnID == curChunk.returnID && (i < len(curChunk.statements) - 1 ==> (PostChunkOK(remainingChunks[len(old(remainingChunks))], curChunk, i, old(curChunk.returnID)) && curChunk.returnID == remainingChunks[len(old(remainingChunks))].id))
@@ -477,8 +494,9 @@ package emitter
 //@     invariant [C01:if-inv2] forall j int :: {remainingChunks[j]} {pre(remainingChunks)[j]} (0 <= j && j < len(pre(remainingChunks))) ==> remainingChunks[j] == pre(remainingChunks)[j]
 //@     invariant [C01:if-inv2] forall j int :: {remainingChunks[j]} (len(pre(remainingChunks)) <= j && j < len(remainingChunks)) ==>
 //@           (remainingChunks[j] != nil && pre(*chunkCounter) < remainingChunks[j].id && remainingChunks[j].id <= *chunkCounter && fresh(remainingChunks[j]) && ChunkObjsAlloc(remainingChunks[j]))
+//@     invariant [C04:if-pending-inv] forall j int :: {remainingChunks[j]} (len(pre(remainingChunks)) <= j && j < len(remainingChunks)) ==> PendingOK(remainingChunks[j], *chunkCounter)
 //@     invariant [C01:if-inv2] forall j int, j2 int :: {remainingChunks[j], remainingChunks[j2]} (len(pre(remainingChunks)) <= j && j < j2 && j2 < len(remainingChunks)) ==> remainingChunks[j].id != remainingChunks[j2].id
-//@     invariant [C01,C02:if-sem-inv] i < len(elifChunks) - 1 ==> (
+//@     invariant [C01,C02:if-sem-inv|~if-pending-inv,~cond-pending] i < len(elifChunks) - 1 ==> (
 //@            (forall j int :: {remainingChunks[j]} (len(pre(remainingChunks)) <= j && j < len(remainingChunks)) ==> EmptyChunkEq(remainingChunks[j]))
 //@        ==> K(prevElifEntryID) == ElifSem(stmt, i + 1, consequenceChunk.id + 1, (stmt.ElseConsequence != nil ? BehOf(elseChunk.id) : K(returnID))))
 //@     invariant [C01:if-inv2] i < len(elifChunks) - 1 ==> (pre(*chunkCounter) < prevElifEntryID && prevElifEntryID <= *chunkCounter)
@@ -493,7 +511,10 @@ package emitter
 
 //@ func createSwitchStatementChunks
 //@   requires SwitchStmtOK(stmt) && curChunk != nil && chunkCounter != nil && *chunkCounter >= 0 && 0 <= statementIndex && statementIndex < len(curChunk.statements)
+//@   requires StmtWF(stmt) && StmtsWF(curChunk.statements) && IdOK(curChunk.returnID, *chunkCounter + 1)
 //@   modifies *chunkCounter, curChunk.returnID
+//@   ensures [C04:switch-pending] forall j int :: {result0[j]} (len(old(remainingChunks)) <= j && j < len(result0)) ==> PendingOK(result0[j], *chunkCounter)
+//@   ensures [C04:switch-ids] IdOK(result2, *chunkCounter + 1) && result1 != nil && fresh(result1) && 0 <= result1.destChunkID && result1.destChunkID <= *chunkCounter && IdOK(curChunk.returnID, *chunkCounter + 1)
 //@   ensures [C03,C04:switch-fresh] Appended(result0, old(remainingChunks), old(*chunkCounter), *chunkCounter)
 //@   ensures [C03,C04:switch-fresh2] forall j int :: {result0[j]} (len(old(remainingChunks)) <= j && j < len(result0)) ==> (fresh(result0[j]) && ChunkObjsAlloc(result0[j]))
 //@   loop 1
@@ -502,18 +523,26 @@ package emitter
 //@     invariant [C03,C04:switch-inv] len(remainingChunks) == len(pre(remainingChunks)) + (*chunkCounter - pre(*chunkCounter))
 //@     invariant [C03,C04:switch-inv] forall j int :: {remainingChunks[j]} {pre(remainingChunks)[j]} (0 <= j && j < len(pre(remainingChunks))) ==> remainingChunks[j] == pre(remainingChunks)[j]
 //@     invariant [C03,C04:switch-inv] forall j int :: {remainingChunks[j]} (len(pre(remainingChunks)) <= j && j < len(remainingChunks)) ==>
-//@           (remainingChunks[j] != nil && pre(*chunkCounter) < remainingChunks[j].id && remainingChunks[j].id <= *chunkCounter && fresh(remainingChunks[j]) && ChunkObjsAlloc(remainingChunks[j]))
+//@           (remainingChunks[j] != nil && pre(*chunkCounter) < remainingChunks[j].id && remainingChunks[j].id <= *chunkCounter && fresh(remainingChunks[j]) && ChunkObjsAlloc(remainingChunks[j])
+//@            && remainingChunks[j].branchBehavior == nil && PendingOK(remainingChunks[j], *chunkCounter))
+//@     invariant [C03,C04:switch-inv] IdOK(returnID, *chunkCounter + 1) && switchChunk == remainingChunks[len(pre(remainingChunks)) - 1] && len(pre(remainingChunks)) >= 1 && switchChunk.branchBehavior == nil && switchChunk.returnID == returnID && len(switchChunk.statements) == 0
+//@     invariant [C03,C04:switch-inv] forall k int :: {branchCases[k]} (0 <= k && k < len(branchCases)) ==> (branchCases[k] != nil && allocated(branchCases[k]) && 0 <= branchCases[k].destChunkID && branchCases[k].destChunkID <= *chunkCounter)
+//@     invariant [C03,C04:switch-inv] branchBehavior.defaultCase != nil ==> (allocated(branchBehavior.defaultCase) && 0 <= branchBehavior.defaultCase.destChunkID && branchBehavior.defaultCase.destChunkID <= *chunkCounter)
 //@     invariant [C03,C04:switch-inv] forall j int, j2 int :: {remainingChunks[j], remainingChunks[j2]} (len(pre(remainingChunks)) <= j && j < j2 && j2 < len(remainingChunks)) ==> remainingChunks[j].id != remainingChunks[j2].id
 //@     decreases len(stmt.Cases) - i
 //@   loop 2
 //@     modifies *chunkCounter, branchBehavior.defaultCase
 //@     invariant [C03,C04:switch-inv] i + 1 <= j && j <= len(stmt.Cases) && 0 <= i && destChunkID == -1
 //@     invariant [C03,C04:switch-inv] remainingChunks == outer(remainingChunks) && *chunkCounter == outer(*chunkCounter) && i == outer(i)
+//@     invariant [C03,C04:switch-inv] branchCases == outer(branchCases) && branchBehavior.defaultCase == outer(branchBehavior.defaultCase) && processedDefaultCase == outer(processedDefaultCase)
 //@     decreases len(stmt.Cases) - j
 //@   loop 3
 //@     modifies *chunkCounter, branchBehavior.defaultCase
 //@     invariant [C03,C04:switch-inv] 0 <= i && i <= j && j < len(stmt.Cases) && *chunkCounter == pre(*chunkCounter)
 //@     invariant [C03,C04:switch-inv] len(remainingChunks) == len(pre(remainingChunks))
 //@     invariant [C03,C04:switch-inv] forall q int :: {remainingChunks[q]} (0 <= q && q < len(remainingChunks)) ==> remainingChunks[q] == pre(remainingChunks)[q]
+//@     invariant [C03,C04:switch-inv] destChunkID == *chunkCounter && destChunkID >= 1
+//@     invariant [C03,C04:switch-inv] forall k int :: {branchCases[k]} (0 <= k && k < len(branchCases)) ==> (branchCases[k] != nil && allocated(branchCases[k]) && 0 <= branchCases[k].destChunkID && branchCases[k].destChunkID <= *chunkCounter)
+//@     invariant [C03,C04:switch-inv] branchBehavior.defaultCase != nil ==> (allocated(branchBehavior.defaultCase) && 0 <= branchBehavior.defaultCase.destChunkID && branchBehavior.defaultCase.destChunkID <= *chunkCounter)
 //@     decreases j - i
 //@ end
